@@ -14,6 +14,10 @@ def global_ty(tv):
     return tv
 
 
+# linkage 0-8, preemption 9-10, visibility 11-13, DLL storage class 14-15, thread-local model 16-19, unnamed_addr 20-21, externally_initialized 22
+GLEAD_FAMILIES = [range(0, 9), range(9, 11), range(11, 14), range(14, 16), range(16, 20), range(20, 22), range(22, 23)]
+
+
 def gen_whole(rng, max_funcs=3):
     while True:
         ts, gs = core2gen.gen_core2(rng)
@@ -34,6 +38,17 @@ def gen_whole(rng, max_funcs=3):
             extra.append((n, t))
         if extra:
             gs = "/".join(([gs] if gs != "-" else []) + ["%s:%s:%s=%s" % (n, rng.choice(["g", "c"]), t, "z" if not t.startswith("i") else "i%d" % rng.randint(0, 100)) for n, t in extra])
+        # the optional keywords of global variables (positions in the model's list `Whole.kGLead`): at most one of each family, in the order of the grammar
+        if gs != "-":
+            ents = []
+            for e in gs.split("/"):
+                f = e.split(":", 2)
+                if rng.random() < 0.5:
+                    lead = [rng.choice(list(fam)) for fam in GLEAD_FAMILIES if rng.random() < 0.35]
+                    if lead:
+                        f[1] += "~" + ",".join(map(str, lead))
+                ents.append(":".join(f))
+            gs = "/".join(ents)
         sigs, fnames = [], set()
         for _ in range(rng.randint(0, max_funcs)):
             sg = core3gen.gen_sig(rng)
@@ -70,7 +85,7 @@ def mutants(rng, text):
     """single-point mutants of a printed module (bytes) that cross fragment boundaries: (kind, text)"""
     out = []
     lines = text.split(b"\n")
-    gl = [k for k, l in enumerate(lines) if re.match(rb"@\S+ = (global|constant) ", l)]
+    gl = [k for k, l in enumerate(lines) if re.match(rb'@(?:"[^"]*"|\S+) = (?:[a-z_()]+ )*(global|constant) ', l)]
     fn = [k for k, l in enumerate(lines) if l.startswith(b"define ")]
     dc = [k for k, l in enumerate(lines) if l.startswith(b"declare ")]
     td = [k for k, l in enumerate(lines) if re.match(rb"%\S+ = type ", l)]
@@ -178,6 +193,24 @@ def mutants(rng, text):
         m = re.match(rb"(define|declare) ", lines[k])
         for kw in rng.sample([b"internal", b"hidden", b"dso_local", b"fastcc", b"dllimport", b"extern_weak", b"amdgpu_kernel", b"linkonce_odr"], 2):
             out.append(("header-keyword-added", with_line(k, lines[k][:m.end()] + kw + b" " + lines[k][m.end():])))
+    # keywords of global variables: one of each family (linkage, preemption, visibility, DLL storage class, thread-local model, unnamed_addr,
+    # externally_initialized), in the order of the grammar
+    GKW = rb"(?:appending|available_externally|common|internal|linkonce_odr|linkonce|private|weak_odr|weak|dso_local|dso_preemptable|default|hidden|protected|dllexport|dllimport|thread_local(?:\([a-z]+\))?|local_unnamed_addr|unnamed_addr|externally_initialized)"
+    gheads = [(k, m) for k in gl for m in [re.match(rb'(@(?:"[^"]*"|[-a-zA-Z$._0-9]+) = )((?:' + GKW + rb" )*)(global|constant) ", lines[k])] if m]
+    if gheads:
+        k, m = rng.choice(gheads)
+        kws = m.group(2).split()
+        pre, post = lines[k][:m.start(2)], lines[k][m.end(2):]
+        other = rng.choice([b"internal", b"hidden", b"dso_local", b"dllimport", b"thread_local", b"thread_local(localexec)", b"unnamed_addr", b"externally_initialized", b"weak_odr", b"external", b"extern_weak"])
+        out.append(("global-keyword-added-first", with_line(k, pre + b"".join(x + b" " for x in [other] + kws) + post)))
+        out.append(("global-keyword-added-last", with_line(k, pre + b"".join(x + b" " for x in kws + [other]) + post)))
+        if kws:
+            out.append(("global-keyword-doubled", with_line(k, pre + b"".join(x + b" " for x in kws + [kws[-1]]) + post)))
+            out.append(("global-keyword-dropped", with_line(k, pre + b"".join(x + b" " for x in kws[1:]) + post)))
+            out.append(("global-keyword-after-kind", with_line(k, pre + b"".join(x + b" " for x in kws[:-1]) + post.replace(b" ", b" " + kws[-1] + b" ", 1))))
+        if len(kws) >= 2:
+            sw = list(kws); i = rng.randrange(len(sw) - 1); sw[i], sw[i + 1] = sw[i + 1], sw[i]
+            out.append(("global-keywords-swapped", with_line(k, pre + b"".join(x + b" " for x in sw) + post)))
     # parameter attributes (`T noundef signext %x`): a list per parameter, between the type and the name
     plists = [(k, m) for k in fn + dc for m in [re.match(rb"(?:define|declare) [^()]*\(([^()]+)\)", lines[k])] if m]
     if plists:
